@@ -258,3 +258,93 @@ def leaf_dataflow_ops():
     fd._set_out_types(o)
     kf = fd.port_kind(OutPort(Node(1), 0))
     sym.check("funcdefn_offers_function", isinstance(kf, tys.FunctionKind) and kf.ty == tys.PolyFuncType([], ft(i, o)) and fd.inner_signature() == ft(i, o))
+
+
+# ---------------------------------------------------------------------------
+# the same rules over rows of UNBOUNDED length and arbitrary element types (z3 sequences)
+# ---------------------------------------------------------------------------
+from vrf.symx import symseq  # noqa: E402
+
+
+def _port_in(op, row, tag, incoming):
+    """port kind/type at a symbolic offset anywhere in `row` (any length)."""
+    o = sym.int(f"{tag}.off", 0, None)
+    sym.assume(o < len(row))
+    port = InPort(Node(5), o) if incoming else OutPort(Node(5), o)
+    k = op.port_kind(port)
+    sym.check(f"{tag}:value_port_type_at_any_offset", sym.and_(isinstance(k, tys.ValueKind), k.ty == row[o]))
+    if isinstance(op, ops.DataflowOp):
+        sym.check(f"{tag}:port_type_is_payload", op.port_type(port) == row[o])
+    ko = op.port_kind(InPort(Node(5), -1) if incoming else OutPort(Node(5), -1))
+    sym.check(f"{tag}:order_port", isinstance(ko, tys.OrderKind))
+
+
+@lemma("C06", unbounded="row lengths and element types (z3 sequences over an uninterpreted type sort); port offsets", bounds="none",
+       outside="operations whose code iterates over the row (MakeTuple / UnpackTuple / to_model): covered by the bounded lemmas")
+def container_signatures_unbounded_rows():
+    i, o = symseq.make("i"), symseq.make("o")
+    d = ops.DFG(i, o)
+    sym.check("u:dfg_outer_is_body", sym.and_(d.outer_signature().input == i, d.outer_signature().output == o,
+                                              d.inner_signature().input == i, d.inner_signature().output == o))
+    sym.check("u:dfg_num_out", d.num_out == len(o))
+    _port_in(d, i, "u.dfg.in", True)
+    _port_in(d, o, "u.dfg.out", False)
+    c = ops.CFG(i, o)
+    sym.check("u:cfg_signature", sym.and_(c.outer_signature().input == i, c.outer_signature().output == o, c.num_out == len(o)))
+    inp, out = ops.Input(i), ops.Output(o)
+    sym.check("u:io_nodes", sym.and_(inp.outer_signature().output == i, inp.num_out == len(i), out.outer_signature().input == o))
+    cu = ops.Custom("x", tys.FunctionType(i, o), extension="e")
+    sym.check("u:custom", sym.and_(cu.outer_signature().input == i, cu.outer_signature().output == o, cu.num_out == len(o)))
+    f = tys.FunctionType(i, o)
+    ci = ops.CallIndirect(f)
+    sym.check("u:callindirect_prepends_function", sym.and_(ci.outer_signature().input == [f] + i, ci.outer_signature().output == o, ci.num_out == len(o)))
+    fl = f.flip()
+    sym.check("u:flip_swaps_rows", sym.and_(fl.input == o, fl.output == i))
+
+
+@lemma("C06", unbounded="just-inputs / just-outputs / rest rows: any length, any element types; port offsets", bounds="none")
+def tailloop_signature_unbounded_rows():
+    ji, jo, rest = symseq.make("ji"), symseq.make("jo"), symseq.make("rest")
+    op = ops.TailLoop(ji, rest, jo)
+    sym.check("u:loop_outer_in", op.outer_signature().input == ji + rest)
+    sym.check("u:loop_outer_out", op.outer_signature().output == jo + rest)
+    sym.check("u:loop_body_in", op.inner_signature().input == ji + rest)
+    sym.check("u:loop_body_out_is_sum_then_rest", op.inner_signature().output == [tys.Sum([ji, jo])] + rest)
+    sym.check("u:loop_num_out", op.num_out == len(jo) + len(rest))
+    _port_in(op, ji + rest, "u.loop.in", True)
+    _port_in(op, jo + rest, "u.loop.out", False)
+
+
+@lemma("C06", unbounded="variant rows, other inputs / outputs: any length, any element types; port offsets",
+       bounds="2..3 variants (the variant count is the length of a Python list the code indexes); variant index symbolic")
+def conditional_block_tag_unbounded_rows():
+    nv = sym.concretize(sym.int("variants", 2, 3))
+    rows = [symseq.make(f"v{j}") for j in range(nv)]
+    other, outs = symseq.make("other"), symseq.make("outs")
+    s = tys.Sum(rows)
+    n = sym.int("n", 0, nv - 1)
+    cond = ops.Conditional(s, other, outs)
+    sym.check("u:conditional_inputs", sym.and_(cond.outer_signature().input == [s] + other, cond.outer_signature().output == outs, cond.num_out == len(outs)))
+    sym.check("u:case_n_inputs", cond.nth_inputs(n) == rows[sym.concretize(n)] + other)
+    blk = ops.DataflowBlock(other, s, outs)
+    sym.check("u:block_body", sym.and_(blk.inner_signature().input == other, blk.inner_signature().output == [s] + outs, blk.num_out == nv))
+    sym.check("u:successor_n_outputs", blk.nth_outputs(n) == rows[sym.concretize(n)] + outs)
+    tag = ops.Tag(n, s)
+    sym.check("u:tag_signature", sym.and_(tag.outer_signature().input == rows[sym.concretize(n)], tag.outer_signature().output == [s]))
+    _port_in(cond, [s] + other, "u.cond.in", True)
+
+
+@lemma("C06", unbounded="body rows and instantiation rows of independent, arbitrary lengths; port offsets", bounds="none")
+def call_and_load_function_unbounded_rows():
+    bi, bo, ii, io = symseq.make("bi"), symseq.make("bo"), symseq.make("ii"), symseq.make("io")
+    sig = tys.PolyFuncType([tys.ListParam(tys.TypeTypeParam(tys.TypeBound.Any))], tys.FunctionType(bi, bo))
+    inst = tys.FunctionType(ii, io)
+    call = ops.Call(sig, inst, [tys.SequenceArg([])])
+    sym.check("u:call_num_out", call.num_out == len(io))
+    sym.check("u:call_function_port", call._function_port_offset() == len(ii))
+    k = call.port_kind(InPort(Node(2), len(ii)))
+    sym.check("u:call_static_port_kind", isinstance(k, tys.FunctionKind) and k.ty is sig)
+    _port_in(call, ii, "u.call.in", True)
+    _port_in(call, io, "u.call.out", False)
+    lf = ops.LoadFunc(sig, inst, [tys.SequenceArg([])])
+    sym.check("u:loadfunc", sym.and_(lf.outer_signature().input == [], lf.outer_signature().output == [inst], lf.num_out == 1))
